@@ -23,6 +23,7 @@ const (
 
 func c11(c *Ctx) {
 	r := c.R
+	c11recorded(c)
 	r.Decides("an eviction call is dominated by: pod not yet handled in this round, pod not already evicted, task target not yet met")
 	r.Decides("after a successful eviction and after counting an already-evicted pod, the pod is marked handled, its release is credited to every target, and the target-met test is evaluated before any further eviction; a met target leaves the victim loop")
 	r.Decides("the eviction call is control-dependent on a test that involves the victim's own release for this task and the task's remaining shortage (no victim that frees nothing of what is short)")
@@ -516,4 +517,39 @@ func c11policyName(c *Ctx) {
 		r.Floor("FLOW", "IsEvictionPolicyAllowed calls in "+rel, nSeeds, 2)
 		r.Floor("FLOW", "string(feature) terminals in "+rel, nTerm, 1)
 	}
+}
+
+// c11recorded: a pod is remembered as evicted only after the eviction call succeeded.
+func c11recorded(c *Ctx) {
+	r := c.R
+	r.Decides("the evictor's 'already evicted' record of a pod is written only behind a successful eviction call (a failed call - e.g. refused by a disruption budget - must leave the pod eligible: KillAndEvictPods counts a recorded pod's usage as already released and skips it)")
+	r.Rule("PATH(recorded after success): in Evictor.EvictPodIfNotEvicted every write into podsEvicted (Set/SetDefault/Add) is preceded on every path by the evictPod call and is unreachable when that call returned false")
+	fn := c.Fn(evictUtilPkg, "Evictor", "EvictPodIfNotEvicted")
+	if fn == nil {
+		return
+	}
+	var ev *ssa.Call
+	var sets []ssa.CallInstruction
+	for _, cl := range an.Calls(fn, false) {
+		sn := an.ShortCallee(cl.Common())
+		if call, ok := cl.(*ssa.Call); ok && sn == "evictPod" {
+			ev = call
+		}
+		if (sn == "SetDefault" || sn == "Set" || sn == "Add") && strings.Contains(an.Path(an.Args(cl.Common())[0]), "podsEvicted") {
+			sets = append(sets, cl)
+		}
+	}
+	key := fkey(fn) + "/recorded-after-success"
+	if ev == nil || len(sets) == 0 {
+		r.Fail("PATH", key, c.Pos(fn.Pos()), sprintf("eviction call found=%v, writes of the record found=%d", ev != nil, len(sets)))
+		return
+	}
+	reach := an.Explore(fn, an.After(ev), an.Facts{ev: an.False}, nil)
+	ok := true
+	for _, s := range sets {
+		if !mustPass(ev, s) || reach.Reached(s) {
+			ok = false
+		}
+	}
+	r.Check(ok, "PATH", key, c.InstrPos(ev), "recorded only behind a successful eviction", "the pod is recorded as evicted before (or although) the eviction call failed: in the next rounds its usage counts as released and it is never retried, so eviction stops although nothing was freed")
 }
